@@ -280,7 +280,7 @@ pub fn run(args: &Args) -> i32 {
     }
 
     // random part
-    let n = args.vol(2500, 100_000);
+    let n = args.vol(6000, 200_000);
     par_cases(&rec, 1, n, |i, r| {
         let max = if args.thorough() && r.chance(1, 200) { 64 << 20 } else if r.chance(1, 10) { 1 << 20 } else { 200_000 };
         let c = match r.below(10) {
